@@ -136,6 +136,46 @@ def label_for(rng, kind="int"):
     return "L%05d" % rng.randint(0, 99999)
 
 
+# probability that make_array hands the constructor an unusual but valid form of its inputs
+EXOTIC = 0.06
+EXOTIC_SEEN = {}
+
+
+def exotic_form(sr, rng, sym, kw, fermionic):
+    """Same tensor, unusual representation of the constructor arguments:
+    - numpy integers as charge labels (the library's own utils.rand_index produces them),
+    - block memory that is not C-contiguous (transposed / strided views),
+    - explicitly stored trivial (+1) entries in the pending-sign table."""
+    kinds = ["npint-labels", "strided-blocks"] + (["explicit-plus-one-signs"] * 2 if fermionic else [])
+    kind = rng.choice(kinds)
+    EXOTIC_SEEN[kind] = EXOTIC_SEEN.get(kind, 0) + 1
+    kw = dict(kw)
+    if kind == "npint-labels":
+        conv = (lambda c: tuple(np.int64(v) for v in c)) if isinstance(kw["charge"], tuple) else (lambda c: np.int64(c))
+        kw["indices"] = tuple(sr.BlockIndex({conv(c): d for c, d in ix.chargemap.items()}, dual=ix.dual) if ix.subinfo is None else ix for ix in kw["indices"])
+        if all(ix.subinfo is None for ix in kw["indices"]):
+            kw["blocks"] = {tuple(conv(c) for c in s_): b for s_, b in kw["blocks"].items()}
+            kw["charge"] = conv(kw["charge"])
+    elif kind == "strided-blocks":
+        nb = {}
+        for s_, b in kw["blocks"].items():
+            b = np.asarray(b)
+            if b.ndim >= 2 and rng.random() < 0.5:
+                nb[s_] = np.asfortranarray(b)
+            elif b.ndim >= 1 and b.shape[-1] >= 1:
+                big = np.zeros(b.shape[:-1] + (2 * b.shape[-1],), dtype=b.dtype)
+                big[..., ::2] = b
+                nb[s_] = big[..., ::2]
+            else:
+                nb[s_] = b
+        kw["blocks"] = nb
+    else:
+        secs = list(kw["blocks"])
+        if secs:
+            kw["phases"] = {s_: 1 for s_ in rng.sample(secs, rng.randint(1, len(secs)))}
+    return kw
+
+
 def make_array(
     sr,
     rng,
@@ -149,6 +189,7 @@ def make_array(
     label=None,
     nphase=None,
     shuffle_blocks=True,
+    exotic=True,
 ):
     """Build an array of the library through its plain constructor from harness-made
     blocks. Returns the array. `values` is a Values factory."""
@@ -168,6 +209,8 @@ def make_array(
     if fermionic:
         if R.par(sym, charge):
             kw["oddpos"] = label if label is not None else label_for(rng)
+    if EXOTIC and exotic and rng.random() < EXOTIC:
+        kw = exotic_form(sr, rng, sym, kw, fermionic)
     x = cls(**kw)
     if fermionic:
         if nphase is None:
